@@ -10,6 +10,7 @@ received for `nm` in `q`, in arrival order (`SerfModel.UserCoalesce.newest`).
 -/
 import SerfProofs.Lemmas.UserCoalesce
 import SerfProofs.Lemmas.CoalesceLoop
+import SerfModel.Gen.Coalescers
 namespace SerfProofs.C18
 open SerfModel SerfModel.UserCoalesce SerfProofs.UserCoalesce
 open SerfModel.CoalesceLoop SerfProofs.CoalesceLoop
@@ -158,6 +159,218 @@ theorem C18_timer_disarmed (s : St userCoalescer) :
     (s.quiescent = false → step userCoalescer s .quiescent = (s, [])) := by
   constructor <;> intro h <;> simp [step, h]
 
+/-! ### The whole loop, every interleaving of events, timer firings and names/times -/
+
+/-- The coalescable user events the loop has taken since its last flush, after a sequence of
+inputs (an armed timer or a shutdown flushes; a timer that is not armed finds nothing pending). -/
+def pendAfter : List UserEv → List (In Ev) → List UserEv
+  | p, [] => p
+  | p, .ev (.user u) :: r => if u.coalesce then pendAfter (p ++ [u]) r else pendAfter p r
+  | p, .ev (.other _) :: r => pendAfter p r
+  | _, .quantum :: r => pendAfter [] r
+  | _, .quiescent :: r => pendAfter [] r
+  | _, .shutdown :: r => pendAfter [] r
+
+/-- Invariant of the running loop: the coalescer represents exactly the pending events, and both
+timers are armed iff something is pending. -/
+def LoopInv (s : St userCoalescer) (p : List UserEv) : Prop :=
+  s.done = false ∧ Rep s.c p ∧ s.quantum = !p.isEmpty ∧ s.quiescent = !p.isEmpty
+
+theorem loopInv_init : LoopInv (init userCoalescer) [] := ⟨rfl, Rep.nil, rfl, rfl⟩
+
+theorem loopInv_step (s : St userCoalescer) (p : List UserEv) (h : LoopInv s p) (i : In Ev)
+    (hi : isShutdown i = false) : LoopInv (step userCoalescer s i).1 (pendAfter p [i]) := by
+  obtain ⟨hd, hrep, hq, hqs⟩ := h
+  have hflush : LoopInv (flushNow userCoalescer s false).1 [] := ⟨rfl, Rep.nil, rfl, rfl⟩
+  cases i with
+  | ev e =>
+    cases e with
+    | user u =>
+      by_cases hu : u.coalesce
+      · rw [step_handled _ _ hd _ (by simpa [userCoalescer, handles] using hu)]
+        simp only [pendAfter, hu, ↓reduceIte]
+        exact ⟨hd, hrep.step u, by simp, by simp⟩
+      · rw [step_unhandled _ _ hd _ (by simpa [userCoalescer, handles] using hu)]
+        simp only [pendAfter, hu, Bool.false_eq_true, ↓reduceIte]
+        exact ⟨hd, hrep, hq, hqs⟩
+    | other k =>
+      rw [step_unhandled _ _ hd _ rfl]
+      exact ⟨hd, hrep, hq, hqs⟩
+  | quantum =>
+    simp only [step, pendAfter]
+    split
+    · rename_i hc
+      simp only [hd, Bool.false_or, Bool.not_eq_eq_eq_not, Bool.not_true] at hc
+      rw [hq] at hc
+      have hp : p = [] := by simpa using hc
+      subst hp
+      exact ⟨hd, hrep, hq, hqs⟩
+    · exact hflush
+  | quiescent =>
+    simp only [step, pendAfter]
+    split
+    · rename_i hc
+      simp only [hd, Bool.false_or, Bool.not_eq_eq_eq_not, Bool.not_true] at hc
+      rw [hqs] at hc
+      have hp : p = [] := by simpa using hc
+      subst hp
+      exact ⟨hd, hrep, hq, hqs⟩
+    · exact hflush
+  | shutdown => simp [isShutdown] at hi
+
+theorem pendAfter_append (a : List (In Ev)) : ∀ (p : List UserEv) (b : List (In Ev)),
+    pendAfter p (a ++ b) = pendAfter (pendAfter p a) b := by
+  induction a with
+  | nil => intro p b; rfl
+  | cons i a ih =>
+    intro p b
+    cases i with
+    | ev e =>
+      cases e with
+      | user u => by_cases hu : u.coalesce <;> simp [pendAfter, hu, ih]
+      | other k => simp [pendAfter, ih]
+    | quantum => simp [pendAfter, ih]
+    | quiescent => simp [pendAfter, ih]
+    | shutdown => simp [pendAfter, ih]
+
+theorem loopInv_run (pre : List (In Ev)) : ∀ (s : St userCoalescer) (p : List UserEv), LoopInv s p →
+    pre.any isShutdown = false → LoopInv (run userCoalescer s pre).1 (pendAfter p pre) := by
+  induction pre with
+  | nil => intro s p h _; exact h
+  | cons i pre ih =>
+    intro s p h hns
+    simp only [List.any_cons, Bool.or_eq_false_iff] at hns
+    have h1 := loopInv_step s p h i hns.1
+    have := ih _ _ h1 hns.2
+    simp only [run]
+    have hp : pendAfter p (i :: pre) = pendAfter (pendAfter p [i]) pre := pendAfter_append [i] p pre
+    rw [hp]
+    exact this
+
+/-- **Every interleaving, events.** After ANY sequence of inputs (events of any names, Lamport
+times and flags, timer firings at any points; no shutdown yet), the next event is absorbed
+silently iff it is a coalescable user event, and is otherwise the step's whole output, unchanged. -/
+theorem C18_loop_history_event (pre : List (In Ev)) (hns : pre.any isShutdown = false) (e : Ev) :
+    (step userCoalescer (run userCoalescer (init userCoalescer) pre).1 (.ev e)).2 =
+      if handles e then [] else [e] := by
+  have hd := (loopInv_run pre _ _ loopInv_init hns).1
+  by_cases h : handles e
+  · rw [step_handled _ _ hd _ h]; simp [h]
+  · have h' : handles e = false := by simpa using h
+    rw [step_unhandled _ _ hd _ h']; simp [h']
+
+/-- **Every interleaving, flushes.** After ANY sequence of inputs, a quantum timer, quiescent timer
+or shutdown emits only user events, and for EVERY name exactly the events carrying the highest
+Lamport time received for that name since the previous flush, in arrival order (`newest`), where
+"since the previous flush" is `pendAfter [] pre`; in particular a timer with nothing pending
+emits nothing. -/
+theorem C18_loop_history_flush (pre : List (In Ev)) (hns : pre.any isShutdown = false) (t : In Ev)
+    (ht : t = .quantum ∨ t = .quiescent ∨ t = .shutdown) :
+    ∃ out : List UserEv,
+      (step userCoalescer (run userCoalescer (init userCoalescer) pre).1 t).2 = out.map Ev.user ∧
+      ∀ nm, out.filter (·.name == nm) = newest (pendAfter [] pre) nm := by
+  obtain ⟨hd, hrep, hq, hqs⟩ := loopInv_run pre _ _ loopInv_init hns
+  have hfl : ∀ b, ∃ out : List UserEv,
+      (flushNow userCoalescer (run userCoalescer (init userCoalescer) pre).1 b).2 = out.map Ev.user ∧
+      ∀ nm, out.filter (·.name == nm) = newest (pendAfter [] pre) nm :=
+    fun b => ⟨_, rfl, fun nm => hrep.flush_filter nm⟩
+  have hnone : pendAfter [] pre = [] → ∃ out : List UserEv, ([] : List Ev) = out.map Ev.user ∧
+      ∀ nm, out.filter (·.name == nm) = newest (pendAfter [] pre) nm := by
+    intro hp; exact ⟨[], rfl, fun nm => by rw [hp]; rfl⟩
+  rcases ht with rfl | rfl | rfl
+  · simp only [step]
+    split
+    · rename_i hc
+      simp only [hd, Bool.false_or, Bool.not_eq_eq_eq_not, Bool.not_true] at hc
+      rw [hq] at hc
+      exact hnone (by simpa using hc)
+    · exact hfl false
+  · simp only [step]
+    split
+    · rename_i hc
+      simp only [hd, Bool.false_or, Bool.not_eq_eq_eq_not, Bool.not_true] at hc
+      rw [hqs] at hc
+      exact hnone (by simpa using hc)
+    · exact hfl false
+  · simp only [step, hd, Bool.false_eq_true, ↓reduceIte]
+    exact hfl true
+
+/-- A timer is armed exactly while something is pending: nothing is held without a flush being
+scheduled, and no flush fires on an empty coalescer. -/
+theorem C18_timers_armed_iff_pending (pre : List (In Ev)) (hns : pre.any isShutdown = false) :
+    (run userCoalescer (init userCoalescer) pre).1.quantum = !(pendAfter [] pre).isEmpty ∧
+    (run userCoalescer (init userCoalescer) pre).1.quiescent = !(pendAfter [] pre).isEmpty := by
+  obtain ⟨_, _, hq, hqs⟩ := loopInv_run pre _ _ loopInv_init hns
+  exact ⟨hq, hqs⟩
+
+/-- After the shutdown flush the goroutine has returned: nothing is emitted any more, whatever
+arrives (this is why `C18_passthrough` and the theorems above need "no shutdown before"). -/
+theorem C18_after_shutdown_silent (pre post : List (In Ev)) (i : In Ev) :
+    (step userCoalescer (run userCoalescer (init userCoalescer) (pre ++ .shutdown :: post)).1 i).2 = [] := by
+  have hd : (run userCoalescer (init userCoalescer) (pre ++ .shutdown :: post)).1.done = true := by
+    rw [run_done]; simp [isShutdown]
+  rw [step_after_done _ _ hd]
+
+/-! ### Ties to serf/coalesce_user.go and serf/coalesce.go (regenerated on every run) -/
+
+section SourceTies
+open SerfModel.CoalesceShapes SerfModel.Gen.Coalescers
+
+/-- **`Coalesce`, interpreted.**  The body of `userEventCoalescer.Coalesce` — its guards translated
+from the source and evaluated, its two actions (a fresh one-element entry stored under the name;
+append to the entry) — computes exactly the model's `coalesce`, on every state and event: no
+entry or strictly newer ⇒ replace the whole slice; equal time ⇒ append; older ⇒ nothing. -/
+theorem C18_coalesce_is_source_program (c : UC) (e : UserEv) :
+    runUserProg userCoalesceProg c e = some (coalesce c e) := by
+  unfold coalesce
+  cases h : alookup c e.name with
+  | none =>
+    simp [userCoalesceProg, runUserProg, Cond.eval, natOps, userEnvB, userEnvV, h]
+  | some v =>
+    obtain ⟨lt, evs⟩ := v
+    by_cases h1 : lt < e.lt
+    · simp [userCoalesceProg, runUserProg, Cond.eval, natOps, userEnvB, userEnvV, h, h1]
+    · by_cases h2 : lt = e.lt
+      · simp [userCoalesceProg, runUserProg, Cond.eval, natOps, userEnvB, userEnvV, h, h2]
+      · have h3 : (lt == e.lt) = false := by simpa using h2
+        simp [userCoalesceProg, runUserProg, Cond.eval, natOps, userEnvB, userEnvV, h, h1, h2, h3]
+
+/-- What precedes the guards: the type assertion and the map lookup by the event's name. -/
+theorem C18_coalesce_prologue :
+    userCoalescePrologue = ["user := e.(UserEvent)", "latest, ok := c.events[user.Name]"] := by decide
+
+/-- `Flush` sends every stored event, name by name, each name's slice front to back, and then
+replaces the map by an empty one (`flush c = ([], c.flatMap (·.2.2))`): nothing — not even a
+Lamport time — survives a flush. -/
+theorem C18_flush_shape :
+    userFlushStmts =
+      ["for _, latest := range c.events", "  for _, e := range latest.Events", "    outChan <- e",
+       "c.events = make(map[string]*latestUserEvents)"] := by decide
+
+/-- `Handle`: user events only, and among them those with the `Coalesce` flag (`handles`). -/
+theorem C18_handle_shape :
+    userHandleStmts =
+      ["if e.EventType() != EventUser { return false }", "user := e.(UserEvent)", "return user.Coalesce"] := by decide
+
+/-- **`coalesceLoop`, case by case** — what `SerfModel.CoalesceLoop.step` mirrors:
+an unhandled event is sent on and the loop continues (before anything else is done with it);
+a handled one arms the quantum timer only if it is not running, re-arms the quiescent timer
+always, and is coalesced; either timer and the shutdown jump to FLUSH (the shutdown setting the
+flag first); INGEST clears both timers; FLUSH calls `Flush` on the output channel and restarts
+unless shutting down. -/
+theorem C18_loop_shape :
+    loopCases =
+      [("e := <-inCh", ["if !c.Handle(e) { outCh <- e continue }",
+                        "if quantum == nil { quantum = time.After(coalescePeriod) }",
+                        "quiescent = time.After(quiescentPeriod)", "c.Coalesce(e)"]),
+       ("<-quantum", ["goto FLUSH"]), ("<-quiescent", ["goto FLUSH"]),
+       ("<-shutdownCh", ["shutdown = true", "goto FLUSH"])] ∧
+    loopIngest = ["quantum = nil", "quiescent = nil", "for { select }"] ∧
+    loopFlush = ["c.Flush(outCh)", "if !shutdown { goto INGEST }"] ∧
+    loopPrologue = ["var quiescent <-chan time.Time", "var quantum <-chan time.Time", "shutdown := false"] := by decide
+
+end SourceTies
+
 /-! ### Non-vacuity -/
 
 -- ties are kept in arrival order, older ones dropped, names independent, time 0 works
@@ -178,5 +391,17 @@ example : (run userCoalescer (init userCoalescer)
 
 -- C18_loop_flush: both shapes of the trigger hypothesis are satisfiable
 example : ([Ev.user ⟨"a", 1, true, 1⟩, .other 2]).any handles = true := by decide
+
+-- C18_loop_history_*: timers between events, two names, ties, an older event, an unarmed timer
+example : pendAfter [] [.ev (.user ⟨"a", 1, true, 1⟩), .quiescent, .ev (.user ⟨"a", 3, true, 2⟩), .ev (.other 9),
+    .ev (.user ⟨"b", 0, true, 3⟩), .ev (.user ⟨"a", 2, true, 4⟩), .ev (.user ⟨"a", 3, true, 5⟩), .ev (.user ⟨"a", 9, false, 6⟩)]
+    = [⟨"a", 3, true, 2⟩, ⟨"b", 0, true, 3⟩, ⟨"a", 2, true, 4⟩, ⟨"a", 3, true, 5⟩] := by decide
+
+example : (run userCoalescer (init userCoalescer)
+    [.quantum, .ev (.user ⟨"a", 1, true, 1⟩), .quiescent, .ev (.user ⟨"a", 3, true, 2⟩), .ev (.other 9),
+     .ev (.user ⟨"b", 0, true, 3⟩), .ev (.user ⟨"a", 2, true, 4⟩), .ev (.user ⟨"a", 3, true, 5⟩),
+     .ev (.user ⟨"a", 9, false, 6⟩), .quantum, .quiescent]).2
+    = [[], [], [.user ⟨"a", 1, true, 1⟩], [], [.other 9], [], [], [], [.user ⟨"a", 9, false, 6⟩],
+       [.user ⟨"a", 3, true, 2⟩, .user ⟨"a", 3, true, 5⟩, .user ⟨"b", 0, true, 3⟩], []] := by decide
 
 end SerfProofs.C18
